@@ -292,6 +292,13 @@ class QuantityMachine(Machine):
         r = rng.random()
         a = self._pick(rng)
         fam = self.pool[a]["fam"]
+        if rng.random() < 0.03:
+            # a product holding a temporary custom unit is rebased after that unit's scope has
+            # ended: the method fails on the unknown unit after it has merged the others
+            pair = rng.choice([["km", "m"], ["m", "cm"], ["s", "ms"], ["kg", "g"], ["h", "s"]])
+            return {"op": "stale_rebase", "pair": pair, "x": rng.choice([3.0, -2.5, 40.0]),
+                    "abse": rng.choice([None, 0.5]), "order": rng.randrange(3),
+                    "retry": rng.random() < 0.5}
         if rng.random() < 0.05:
             # a quantity built from another one: Quantity(x, q) and Quantity(x, q.units())
             return {"op": "new_from", "a": a, "x": rng.choice([1, 2, 2.5, -3]),
@@ -352,6 +359,11 @@ class QuantityMachine(Machine):
             op["b"] = self._pick(rng, fam)
         if name in ("to", "to_quantity"):
             op["unit"] = self._target_unit(rng, fam)
+        if name == "to_quantity":
+            # the target quantity's own magnitude divides the result: a zero, an array of
+            # another shape or a Decimal there make the method fail after the unit
+            # conversion itself has succeeded
+            op["tq"] = rng.choice(["two", "two", "zero", "arr2", "arr3", "decimal"])
         if name in ("abse", "rele"):
             op["e"] = rng.choice([0.1, 0.5, 2, 10])
         return op
@@ -424,14 +436,17 @@ class QuantityMachine(Machine):
             how = rng.choice(["sqrt", "cbrt", "pow_pair", "pow_float"])
             return {"op": "new_root", "terms": terms, "how": how,
                     "value": rng.choice([4.0, 9.0, 2.25, 64.0, 1e4])}
-        if len(self.pool) >= 2 and rng.random() < 0.06:
-            # convert into the unit *object* of another member of the same dimension
+        if len(self.pool) >= 2 and rng.random() < 0.1:
+            # convert into the unit *object* of another member of the same dimension, or into
+            # multiples of that member (its magnitude then divides the result, and a zero or
+            # an array of another shape there makes the conversion fail at the last moment)
             a = rng.randrange(len(self.pool))
             la = self.pool[a]["led"]
             same = [i for i, e in enumerate(self.pool) if i != a and e["led"] is not None
                     and la is not None and tuple(e["led"]["dims"]) == tuple(la["dims"])]
             if same:
-                return {"op": "conv_to_member", "a": a, "b": rng.choice(same)}
+                return {"op": rng.choice(["conv_to_member", "conv_to_quantity"]), "a": a,
+                        "b": rng.choice(same)}
         if self.pool and rng.random() < 0.06:
             # derived objects that share state with a pool member are rebased or converted in
             # place; the member's own conversions must not notice
@@ -454,7 +469,7 @@ class QuantityMachine(Machine):
                     "mag": rng.choice([2.0, 5.0, 0.25, 1e3]), "base": base,
                     "x": rng.choice([1.0, 3.0, -2.5, 40.0]), "prefix": rng.random() < 0.5,
                     # another scope opened and closed (or failing to open) inside this one
-                    "inner": rng.choice([None, None, "ok", "fails"])}
+                    "inner": rng.choice([None, None, "ok", "fails", "fails_clash"])}
         if len(self.pool) < 1 or (len(self.pool) < cfg["pool"] and rng.random() < 0.15):
             terms = self._rand_terms(rng) if rng.random() > 0.08 else []
             kind = "array" if cfg["arrays"] and rng.random() < 0.4 else "float"
@@ -599,6 +614,8 @@ class QuantityMachine(Machine):
                 self.pool[k]["src"] = v
                 self.pool[k]["src0"] = v.copy()
             return "new", [op["unit"], op["kind"]]
+        if kind == "stale_rebase":
+            return self._stale_rebase(op)
         if not self.pool:
             return "skip", None
         if kind == "follow":
@@ -608,6 +625,7 @@ class QuantityMachine(Machine):
             kind = op["op"]
         before = [snap(e["q"], deep=True) for e in self.pool]
         target = None          # index whose change is allowed (explicit in-place method)
+        failed_target = None   # ... unless that method raised
         result = None
         outcome = "ok"
         what = kind
@@ -717,7 +735,11 @@ class QuantityMachine(Machine):
                     if name == "to":
                         a.to(op["unit"])
                     elif name == "to_quantity":
-                        a.to(Quantity(2.0, op["unit"]))
+                        from decimal import Decimal as _D
+                        tq = {"two": 2.0, "zero": 0.0, "arr2": np.array([1.0, 2.0]),
+                              "arr3": np.array([1.0, 2.0, 4.0]),
+                              "decimal": _D("2")}[op.get("tq", "two")]
+                        a.to(Quantity(tq, op["unit"]))
                     elif name == "to_baseunits":
                         a.to(self._slot(op.get("b", 0))["q"].baseunits)
                     elif name == "rebase":
@@ -733,9 +755,28 @@ class QuantityMachine(Machine):
                 raise
             except Exception as e:
                 outcome = "raised:" + type(e).__name__
+                if kind == "inplace":
+                    # the method failed: it did not convert, rebase or set anything, so its
+                    # own object has to report what it did before as well
+                    failed_target, target = target, None
+                    self.stats.fault("failing_inplace_" + op["name"], True)
         # the oracle: every member except the in-place target reports what it did before
         for i, e in enumerate(self.pool):
             if i == target:
+                continue
+            if i == failed_target:
+                try:
+                    after = snap(e["q"], deep=True)
+                except Exception as ex:
+                    after = ("unreadable", type(ex).__name__, None)
+                if not same_snap(before[i], after):
+                    raise Violation(
+                        "failed_inplace_method_changed_its_object",
+                        {"operation": what, "outcome": outcome, "op": {k: v for k, v in op.items()
+                                                                       if k != "of"},
+                         "before": show(before[i]) + list(before[i][3:]),
+                         "after": show(after) + list(after[3:])},
+                        signature=f"C07/failed_inplace/{op['name']}")
                 continue
             try:
                 after = snap(e["q"], deep=True)
@@ -774,6 +815,54 @@ class QuantityMachine(Machine):
             self._add(result, fam)
             return outcome, [what, result.units()]
         return outcome, [what, repr(result) if isinstance(result, (bool, np.bool_)) else None]
+
+    def _stale_rebase(self, op):
+        from scinumtools.units import UnitEnvironment
+        u1, u2 = op["pair"]
+        kw = {"abse": op["abse"]} if op.get("abse") else {}
+        units = {"zork": {"magnitude": 7.0, "dimensions": [0, 0, 0, 0, 0, 0, 1, 0]}}
+        try:
+            with UnitEnvironment(units):
+                parts = [Quantity(op["x"], u1, **kw), Quantity(2.0, u2), Quantity(1.0, "zork")]
+                o = op.get("order", 0) % 3
+                parts = parts[o:] + parts[:o]
+                p = parts[0] * parts[1] * parts[2]
+            before = snap(p, deep=False)
+        except Exception as e:
+            return "stale_setup_failed", type(e).__name__
+        try:
+            with np.errstate(all="ignore"):
+                p.rebase()
+        except Exception as e:
+            self.stats.fault("failing_inplace_rebase_stale_unit", True)
+            self.inplace_seen = True
+            try:
+                after = snap(p, deep=False)
+            except Exception as ex:
+                after = ("unreadable", type(ex).__name__, None)
+            if not same_snap(before, after):
+                raise Violation("failed_inplace_method_changed_its_object",
+                                {"operation": "inplace:rebase", "outcome": "raised:" + type(e).__name__,
+                                 "product": f"{u1}*{u2}*zork built inside a scope, rebased after it",
+                                 "before": show(before), "after": show(after)},
+                                signature="C07/failed_inplace/rebase")
+            if op.get("retry"):
+                # the caller re-opens the scope and tries again: one rebase, not two
+                try:
+                    with UnitEnvironment(units):
+                        ref = parts[0] * parts[1] * parts[2]
+                        ref.rebase()
+                        p.rebase()
+                        want, got = snap(ref), snap(p)
+                except Exception as ex:
+                    return "stale_retry_failed", type(ex).__name__
+                if not same_snap(want, got):
+                    raise Violation("failed_inplace_method_changed_its_object",
+                                    {"operation": "inplace:rebase retried inside a new scope",
+                                     "got": show(got), "want": show(want)},
+                                    signature="C07/failed_inplace/rebase")
+            return "raised:" + type(e).__name__, ["inplace:rebase", None]
+        return "stale_rebase_ok", None
 
     def _roles(self, op, i):
         n = len(self.pool)
@@ -913,6 +1002,65 @@ class QuantityMachine(Machine):
             la.update(terms=[list(t) for t in lb["terms"]], text=lb["text"], chain=n)
             self.nontrivial = True
             return "to_member_ok", [la["text"], n]
+        if kind == "conv_to_quantity":
+            if len(self.pool) < 2:
+                return "skip", None
+            ea, eb = self._slot(op["a"]), self._slot(op["b"])
+            la, lb = ea["led"], eb["led"]
+            if ea is eb or la is None or lb is None or tuple(la["dims"]) != tuple(lb["dims"]) \
+                    or la["chain"] >= self.cfg["max_chain"]:
+                return "skip", None
+            fv = UM.factor(lb["terms"])
+            if not (1e-200 < fv < 1e200):
+                return "skip_range", None
+            before_a, before_b = snap(ea["q"]), snap(eb["q"])
+            try:
+                with np.errstate(all="ignore"):
+                    ea["q"].to(eb["q"])
+                    got = ea["q"].value()
+            except Exception as ex:
+                # e.g. division by a zero magnitude, arrays of different shapes: no conversion
+                # took place, so the quantity has to be the one it was
+                self.stats.fault("failing_to_quantity", True)
+                self.nontrivial = True
+                try:
+                    after = snap(ea["q"])
+                except Exception as ex2:
+                    after = ("unreadable", type(ex2).__name__, None)
+                if not same_snap(before_a, after):
+                    raise Violation("failed_conversion_changed_the_quantity",
+                                    {"from": la["text"], "to": "multiples of " + show(before_b)[0]
+                                     + " " + lb["text"],
+                                     "error": [type(ex).__name__, repr(ex.args)[:200]],
+                                     "before": show(before_a), "after": show(after)},
+                                    signature="C04/failed_to_quantity")
+                return "to_quantity_failed", type(ex).__name__
+            if not same_snap(before_b, snap(eb["q"])):
+                raise Violation("unit_donor_changed", {"donor": lb["text"]},
+                                signature="C04/to_quantity/donor_changed")
+            with np.errstate(all="ignore"):
+                try:
+                    mb = np.asarray(lb["B"], dtype=float) / fv
+                    want = (np.asarray(la["B"], dtype=float) / fv) / mb
+                except Exception:
+                    want = None
+            n = la["chain"] + 1
+            if want is None or not np.all(np.isfinite(want)) or np.any(
+                    (np.abs(want) > 1e290) | ((np.abs(want) < 1e-290) & (want != 0))) or np.any(
+                    (np.abs(mb) > 1e150) | (np.abs(mb) < 1e-150)):
+                ea["led"] = None          # out of the range the ledger speaks about
+                return "to_quantity_unchecked", None
+            if np.ndim(want) == 0:
+                want = float(want)
+            if not self._close(got, want, n * 1e-12):
+                raise Violation("converted_value_wrong",
+                                {"from": la["text"], "to": "multiples of " + show(before_b)[0] + " "
+                                 + lb["text"], "got": safe_repr(got), "want": safe_repr(want)},
+                                signature="C04/value/to_quantity")
+            la.update(B=np.asarray(want) * fv if np.ndim(want) else want * fv,
+                      terms=[list(t) for t in lb["terms"]], text=lb["text"], chain=n)
+            self.nontrivial = True
+            return "to_quantity_ok", [la["text"], n]
         if kind == "acc_poke":
             try:
                 getattr(self.acc, op["sym"]).to(op["to"])
@@ -1063,11 +1211,17 @@ class QuantityMachine(Machine):
                     inner = {"zork": {"magnitude": 7.0, "dimensions": [0, 0, 1, 0, 0, 0, 0, 0]}}
                     if op["inner"] == "fails":
                         inner["m"] = {"magnitude": 1.0, "dimensions": [1, 0, 0, 0, 0, 0, 0, 0]}
+                    if op["inner"] == "fails_clash":
+                        # 'kt' reads as kilo-tonne: a refused registration must not shadow it
+                        inner["kt"] = {"magnitude": 0.514, "dimensions": [1, 0, -1, 0, 0, 0, 0, 0]}
                     try:
                         with UnitEnvironment(inner):
                             Quantity(1, "zork").value("s")
                     except Exception:
                         pass
+                    if op["inner"] == "fails_clash":
+                        checks.append((Quantity(2.5, "kt").value("kg"), 2.5e6,
+                                       "kt->kg after a scope defining 'kt' was refused"))
                     # the enclosing scope's unit is still there and still means the same
                     checks.append((Quantity(x, sym).value(btext), x * mag,
                                    f"{sym}->{btext} after an inner scope ({op['inner']})"))
